@@ -42,10 +42,11 @@ func runC15(seed uint64, n int, tier string, outDir string) []*Stats {
 	genMinNames(r, n, st, sink)
 	genRenamerCases(r, n, st, sink)
 	genExportCases(r, n, st, sink)
+	genScopeBuildCases(NewRng(seed*40503+17), n, st, sink)
 	// the glue stream has its own generator state, far away from the correspondence one
 	runGlue(NewRng(seed*2654435761+99991), n, tier, st)
 
-	cf := NewCoqFile("From Coq Require Import String.\nFrom V Require Import Common.Base C15.Names C15.Renamer C15.Spec C15.Harness.\n" + sink.preamble.String())
+	cf := NewCoqFile("From Coq Require Import String.\nFrom V Require Import Common.Base C15.Names C15.Renamer C15.Spec C15.ScopeBuild C15.ScopeProg C15.Harness.\n" + sink.preamble.String())
 	for _, l := range sink.lists {
 		cf.AddCases(l.name, l.typ, l.checker, l.items)
 	}
